@@ -84,6 +84,9 @@ M = [
     ("C17", "r6: signed `//` correction skipped for the v21 module", [(F, "            c.type._elem_type, np.signedinteger\n        ):", "            c.type._elem_type, np.signedinteger\n        ) and not self.op.__name__.endswith('v21'):")]),
     ("C17", "r10: `~` pushed inwards through `And` with a De Morgan mistake (`~(a & b)` -> `~a & ~b`)", [(F, "    def not_(self, a: Var) -> Var:\n        return self.op.not_(a)", "    def not_(self, a: Var) -> Var:\n        node = a._op\n        if node.op_type.identifier == 'And':  # push the negation inwards\n            x, y = node.inputs.get_vars().values()\n            return self.op.and_(self.op.not_(x), self.op.not_(y))\n        return self.op.not_(a)")]),
     ("C17", "r10: unary minus routed through `mul(a, -1)` (needs constant promotion; refuses with it off)", [(F, "    def neg(self, a: Var) -> Var:\n        return self.op.neg(a)", "    def neg(self, a: Var) -> Var:\n        return self.mul(a, -1)")]),
+    ("C17", "r10: per-dispatcher cache of promoted constants keyed by (scalar, target dtype) under Python equality", [
+        (F, "        self.constant_promotion = constant_promotion\n", "        self.constant_promotion = constant_promotion\n        self._consts = {}\n"),
+        (F, "                return self.op.const(np.array(obj, dtype=target_type))", "                key = (obj, np.dtype(target_type))\n                if key not in self._consts:\n                    self._consts[key] = self.op.const(np.array(obj, dtype=target_type))\n                return self._consts[key]")]),
     ("C17", "r8: `type_promotion = type_promotion or <enclosing block's>` (explicit False lost)", [(F, "    prev_dispatcher = Var._operator_dispatcher\n    Var._operator_dispatcher = _NumpyLikeOperatorDispatcher(", "    prev_dispatcher = Var._operator_dispatcher\n    type_promotion = type_promotion or getattr(prev_dispatcher, 'type_promotion', False)\n    Var._operator_dispatcher = _NumpyLikeOperatorDispatcher(")]),
     ("C17", "r8: whole-number Python floats accepted next to integer Vars (promotion off)", [(F, "                    if issubclass(np.result_type(value).type, np.floating)\n", "                    if issubclass(np.result_type(value).type, np.floating)\n                    and not (isinstance(value, float) and value.is_integer())\n")]),
 ]
